@@ -239,6 +239,44 @@ func runMutants(o *Options, ms []Mutant, par int) []mutantResult {
 			m := ms[i]
 			out := mutantResult{Name: m.Name, Kind: m.Kind, Expect: m.Expect, Desc: m.Desc}
 			defer func() { res[i] = out }()
+			if strings.HasPrefix(m.File, "@rename ") {
+				// type-resolved rename: delegated to the sub-process (-rename)
+				args := []string{"-prop", o.Prop, "-tier", "quick", "-repo", o.Repo, "-known", o.Known}
+				for _, spec := range strings.Fields(strings.TrimPrefix(m.File, "@rename ")) {
+					args = append(args, "-rename", spec)
+				}
+				ev := filepath.Join(tmp, fmt.Sprintf("ev%d", i), o.Prop+".json")
+				args = append(args, "-evidence", ev)
+				cmd := exec.Command(exe, args...)
+				cmd.Env = os.Environ()
+				b, _ := cmd.CombinedOutput()
+				var evd struct {
+					Coverage struct {
+						Rules     []ruleStat `json:"rules"`
+						Undecided []string   `json:"undecided"`
+					} `json:"coverage"`
+				}
+				eb, err := os.ReadFile(ev)
+				if err != nil || json.Unmarshal(eb, &evd) != nil {
+					out.Outcome = "error"
+					out.Reported = []string{firstLines(string(b), 5)}
+					return
+				}
+				for _, rs := range evd.Coverage.Rules {
+					if rs.Violated > 0 {
+						out.Reported = append(out.Reported, rs.ID)
+					}
+				}
+				for _, u := range evd.Coverage.Undecided {
+					out.Reported = append(out.Reported, "UNDECIDED "+u)
+				}
+				if len(out.Reported) == 0 {
+					out.Outcome = "silent"
+				} else {
+					out.Outcome = "noisy"
+				}
+				return
+			}
 			type edit struct{ file, old, new string }
 			edits := []edit{{m.File, m.Old, m.New}}
 			for _, e := range m.More {
